@@ -140,7 +140,7 @@ def step (s : State) (te : TEv) : R State :=
       | some (.test _) =>
         (match r with
          | .err _ => pure (s.set { x with verify := none, mustDemote := if x.flag then some t else x.mustDemote })
-         | .ok _ _ => pure (s.set { x with verify := some .read, readAt := t }))
+         | .ok _ _ => pure (s.set { x with verify := if x.flag then some .read else none, readAt := t }))   -- (demoted during the read: the verification ends)
       | some (.validate _ tok) =>
         if verifyVerdict x tok r then pure (s.set { x with verify := none })
         else pure (s.set { x with verify := none, mustDemote := if x.flag then some t else x.mustDemote })
